@@ -3,6 +3,7 @@
 #include <cgreen/reporter.h>
 #include <cgreen/suite.h>
 #include <cgreen/internal/runner_platform.h>
+#include <limits.h>
 #include <stdarg.h>
 #include <stdio.h>
 #include <stdlib.h>
@@ -186,7 +187,8 @@ static int per_test_timeout_defined(void)
 static int per_test_timeout_value(void)
 {
     char *timeout_string;
-    int timeout_value;
+    char *end;
+    long timeout_value;
 
     if (!per_test_timeout_defined())
     {
@@ -194,9 +196,14 @@ static int per_test_timeout_value(void)
     }
 
     timeout_string = getenv(CGREEN_PER_TEST_TIMEOUT_ENVIRONMENT_VARIABLE);
-    timeout_value = atoi(timeout_string);
+    timeout_value = strtol(timeout_string, &end, 10);
+    if (end == timeout_string || *end != '\0' || timeout_value < INT_MIN || timeout_value > INT_MAX)
+    {
+        /* not a number: rejected by validate_per_test_timeout_value() */
+        return 0;
+    }
 
-    return timeout_value;
+    return (int)timeout_value;
 }
 
 static void validate_per_test_timeout_value(void)
